@@ -723,6 +723,51 @@ theorem ite_some_ok {α : Type} {c : Prop} [Decidable c] (a : Except Unit α) (b
   · rw [if_pos hc] at h; exact .inl (Option.some.inj h)
   · rw [if_neg hc] at h; exact .inr h
 
+/-! ### what the set-ups of mtu, lease_time and ipv6only accept fits the field it is sent in (D22–D24) -/
+
+theorem mtu_accepted (args : List ArgOracle) (n : Int) (h : mtu.setup args = .ok n) : 0 ≤ n ∧ n ≤ 65535 := by
+  unfold mtu.setup at h
+  split at h
+  · split at h
+    · split at h
+      · cases h
+      · cases h; omega
+    · cases h
+  · cases h
+
+theorem leasetime_accepted (args : List ArgOracle) (d : Int) (h : leasetime.setup args = .ok d) :
+    0 ≤ d ∧ d ≤ 4294967295 * 1000000000 := by
+  unfold leasetime.setup at h
+  split at h
+  · cases h
+  · split at h
+    · split at h
+      · cases h
+      · cases h; omega
+    · cases h
+
+theorem ipv6only_accepted (args : List ArgOracle) (d : Int) (h : ipv6only.setup args = .ok d) :
+    0 ≤ d ∧ d ≤ 4294967295 * 1000000000 := by
+  unfold ipv6only.setup at h
+  split at h
+  · cases h; omega
+  · split at h
+    · cases h
+    · split at h
+      · cases h
+      · split at h
+        · cases h; omega
+        · cases h
+
+theorem inRange_mtu (n : Int) (h : 0 ≤ n ∧ n ≤ 65535) : C17.inRange4 (.mtu n) = true := by
+  simp only [C17.inRange4, Bool.and_eq_true, decide_eq_true_eq]; exact h
+
+theorem inRange_leasetime (d : Int) (h : 0 ≤ d ∧ d ≤ 4294967295 * 1000000000) : C17.inRange4 (.leasetime d) = true := by
+  simp only [C17.inRange4, Bool.and_eq_true, decide_eq_true_eq]; exact ⟨h.1, Int.lt_of_le_of_lt h.2 (by decide)⟩
+
+theorem inRange_ipv6only (d : Int) (h : 0 ≤ d ∧ d ≤ 4294967295 * 1000000000) : C17.inRange4 (.ipv6only d) = true := by
+  simp only [C17.inRange4, Bool.and_eq_true, decide_eq_true_eq]; exact ⟨h.1, Int.lt_of_le_of_lt h.2 (by decide)⟩
+
 theorem setup4_wireOK (name : String) (args : List ArgOracle) (cfg : Cfg4) (hwf : ∀ a ∈ args, a.wf = true)
     (h : plugSetup4 name args = some (.ok cfg)) : C19.wireOK (.v4 cfg) = true := by
   unfold plugSetup4 at h
@@ -731,7 +776,7 @@ theorem setup4_wireOK (name : String) (args : List ArgOracle) (cfg : Cfg4) (hwf 
     exact dns4_wire args x hwf hx
   rcases ite_some_ok _ _ _ h with h | h
   · obtain ⟨x, hx, rfl⟩ := except_map_ok _ _ _ h
-    rfl
+    exact inRange_mtu x (mtu_accepted args x hx)
   rcases ite_some_ok _ _ _ h with h | h
   · obtain ⟨x, hx, rfl⟩ := except_map_ok _ _ _ h
     simpa [C19.wireOK] using netmask_wire args x hwf hx
@@ -740,7 +785,7 @@ theorem setup4_wireOK (name : String) (args : List ArgOracle) (cfg : Cfg4) (hwf 
     exact dns4_wire args x hwf hx
   rcases ite_some_ok _ _ _ h with h | h
   · obtain ⟨x, hx, rfl⟩ := except_map_ok _ _ _ h
-    rfl
+    exact inRange_leasetime x (leasetime_accepted args x hx)
   rcases ite_some_ok _ _ _ h with h | h
   · obtain ⟨x, hx, rfl⟩ := except_map_ok _ _ _ h
     exact search_wire args x hx
@@ -749,7 +794,7 @@ theorem setup4_wireOK (name : String) (args : List ArgOracle) (cfg : Cfg4) (hwf 
     exact staticroute_wire args x hwf hx
   rcases ite_some_ok _ _ _ h with h | h
   · obtain ⟨x, hx, rfl⟩ := except_map_ok _ _ _ h
-    rfl
+    exact inRange_ipv6only x (ipv6only_accepted args x hx)
   rcases ite_some_ok _ _ _ h with h | h
   · obtain ⟨x, hx, rfl⟩ := except_map_ok _ _ _ h
     simpa [C19.wireOK] using autoconfigure_wire args x hx
@@ -1206,5 +1251,111 @@ theorem preserve_cid6 (cfg : Cfg6) (req : ReqView6) (pre r : Resp6) (stop : Bool
     simp only [Prod.mk.injEq, Option.some.injEq] at h
     obtain ⟨rfl, _⟩ := h
     simp [Resp6.update, filter_other_upd6, nbp6_added_keep]
+
+/-! ### every accepted number fits its field and is announced as itself (D22–D24) -/
+
+theorem accepted_inRange4 (name : String) (args : List ArgOracle) (cfg : Cfg4)
+    (h : plugSetup4 name args = some (.ok cfg)) : C17.inRange4 cfg = true := by
+  unfold plugSetup4 at h
+  rcases ite_some_ok _ _ _ h with h | h
+  · obtain ⟨x, hx, rfl⟩ := except_map_ok _ _ _ h
+    rfl
+  rcases ite_some_ok _ _ _ h with h | h
+  · obtain ⟨x, hx, rfl⟩ := except_map_ok _ _ _ h
+    exact inRange_mtu x (mtu_accepted args x hx)
+  rcases ite_some_ok _ _ _ h with h | h
+  · obtain ⟨x, hx, rfl⟩ := except_map_ok _ _ _ h
+    rfl
+  rcases ite_some_ok _ _ _ h with h | h
+  · obtain ⟨x, hx, rfl⟩ := except_map_ok _ _ _ h
+    rfl
+  rcases ite_some_ok _ _ _ h with h | h
+  · obtain ⟨x, hx, rfl⟩ := except_map_ok _ _ _ h
+    exact inRange_leasetime x (leasetime_accepted args x hx)
+  rcases ite_some_ok _ _ _ h with h | h
+  · obtain ⟨x, hx, rfl⟩ := except_map_ok _ _ _ h
+    rfl
+  rcases ite_some_ok _ _ _ h with h | h
+  · obtain ⟨x, hx, rfl⟩ := except_map_ok _ _ _ h
+    rfl
+  rcases ite_some_ok _ _ _ h with h | h
+  · obtain ⟨x, hx, rfl⟩ := except_map_ok _ _ _ h
+    exact inRange_ipv6only x (ipv6only_accepted args x hx)
+  rcases ite_some_ok _ _ _ h with h | h
+  · obtain ⟨x, hx, rfl⟩ := except_map_ok _ _ _ h
+    rfl
+  rcases ite_some_ok _ _ _ h with h | h
+  · obtain ⟨x, hx, rfl⟩ := except_map_ok _ _ _ h
+    rfl
+  rcases ite_some_ok _ _ _ h with h | h
+  · obtain ⟨x, hx, rfl⟩ := except_map_ok _ _ _ h
+    rfl
+  rcases ite_some_ok _ _ _ h with h | h
+  · obtain ⟨x, hx, rfl⟩ := except_map_ok _ _ _ h
+    rfl
+  exact absurd h (by simp)
+
+theorem exact_mtu (n : Int) (h0 : 0 ≤ n) (h1 : n ≤ 65535) : C17.exact4 (.mtu n) = true := by
+  simp only [C17.exact4, decBe_encU16 n h0 h1, Option.map_some, Int.ofNat_eq_natCast, Int.toNat_of_nonneg h0, beq_self_eq_true]
+
+theorem exact_secs (d : Int) (h0 : 0 ≤ d) (h1 : d < 4294967296 * 1000000000) :
+    ((decBe 4 (encSecs d)).map Int.ofNat == some (d / 1000000000)) = true := by
+  have h2 : 0 ≤ d / 1000000000 := Int.ediv_nonneg h0 (by decide)
+  simp only [decBe_encSecs d h0 h1, Option.map_some, Int.ofNat_eq_natCast, Int.toNat_of_nonneg h2, beq_self_eq_true]
+
+theorem exact_of_inRange4 (cfg : Cfg4) (h : C17.inRange4 cfg = true) : C17.exact4 cfg = true := by
+  cases cfg with
+  | mtu n =>
+    simp only [C17.inRange4, Bool.and_eq_true, decide_eq_true_eq] at h
+    exact exact_mtu n h.1 h.2
+  | leasetime d =>
+    simp only [C17.inRange4, Bool.and_eq_true, decide_eq_true_eq] at h
+    exact exact_secs d h.1 h.2
+  | ipv6only d =>
+    simp only [C17.inRange4, Bool.and_eq_true, decide_eq_true_eq] at h
+    exact exact_secs d h.1 h.2
+  | _ => rfl
+
+theorem decBe_be2 (v : Nat) : decBe 2 (be 2 v) = some (v % 65536) := by
+  unfold decBe
+  have hl : (be 2 v).length = 2 := by simp [be]
+  rw [if_pos hl, ofBe_be2]
+
+theorem decBe_be4 (v : Nat) : decBe 4 (be 4 v) = some (v % 4294967296) := by
+  unfold decBe
+  have hl : (be 4 v).length = 4 := by simp [be]
+  rw [if_pos hl, ofBe_be4]
+
+theorem secs_exact_inRange (d : Int)
+    (h : ((decBe 4 (encSecs d)).map Int.ofNat == some (d / 1000000000)) = true) :
+    0 ≤ d ∧ d < 4294967296 * 1000000000 := by
+  unfold encSecs at h
+  rw [decBe_be4] at h
+  simp only [Option.map_some, beq_iff_eq, Option.some.injEq, Int.ofNat_eq_natCast] at h
+  have h0 : 0 ≤ d := by omega
+  rw [Int.tdiv_eq_ediv_of_nonneg h0] at h
+  have : d / 1000000000 < 4294967296 := by omega
+  exact ⟨h0, by omega⟩
+
+theorem u16_exact_inRange (n : Int) (h : ((decBe 2 (encU16 n)).map Int.ofNat == some n) = true) :
+    0 ≤ n ∧ n ≤ 65535 := by
+  unfold encU16 at h
+  rw [decBe_be2] at h
+  simp only [Option.map_some, beq_iff_eq, Option.some.injEq, Int.ofNat_eq_natCast] at h
+  omega
+
+/-- the converse: a number outside the range is NOT what a client reads -/
+theorem inRange_of_exact4 (cfg : Cfg4) (h : C17.exact4 cfg = true) : C17.inRange4 cfg = true := by
+  cases cfg with
+  | mtu n =>
+    simp only [C17.inRange4, Bool.and_eq_true, decide_eq_true_eq]
+    exact u16_exact_inRange n h
+  | leasetime d =>
+    simp only [C17.inRange4, Bool.and_eq_true, decide_eq_true_eq]
+    exact secs_exact_inRange d h
+  | ipv6only d =>
+    simp only [C17.inRange4, Bool.and_eq_true, decide_eq_true_eq]
+    exact secs_exact_inRange d h
+  | _ => rfl
 
 end CoreDhcp
